@@ -9,6 +9,7 @@ From Coq Require Import String.
 From Coq Require Import List Bool Arith NArith ZArith.
 Import ListNotations.
 Require Import Str Rx RxFacts RxSub IpModel G_rx TextModel TextProofs.
+Require RxDen RxLang Ipv4Token.
 
 Theorem C06_matches_are_nonempty_ordered_disjoint :
   forall (s : list chr) (r : re), nullable r = false -> forall fuel i, spans_ok i (finditer s fuel r i).
@@ -38,8 +39,37 @@ Example C06_instance :
   | Raised _ => False end.
 Proof. vm_compute. reflexivity. Qed.
 
+(* What the GENERATED IPv4 pattern can match, for EVERY line and position (model/Ipv4Token.v, through the declarative reading of the engine in lib/RxDen.v and
+   lib/RxLang.v): a span the engine reports starts at the beginning of the line or after a character that is neither an ASCII letter, a digit nor '.',
+   ends at the end of the line or before such a character, and holds exactly four parts separated by '.', each any number of '0' followed by one of
+   d, dd, 1dd, 20d-24d, 250-255.  Hence an address-like string with an octet above 255, with the wrong number of parts, or glued to letters, digits or
+   further dots is never replaced as a whole -- the "left unchanged" half of the property for IPv4, as a theorem.  (That every standalone valid token IS
+   matched -- the other half -- involves which match the backtracking engine prefers and is decided by the token-scanner search, not proved.) *)
+Theorem C06_generated_ipv4_pattern_matches_only_standalone_dotted_quads :
+  forall (s : list chr) (i : nat) (c : caps) (j : nat) (c' : caps), (i <= length s)%nat ->
+  In (j, c') (ms s IPV4_RX i c) ->
+  (i = 0%nat \/ ((1 <= i)%nat /\ exists x, nth_error s (i - 1) = Some x /\ Ipv4Token.enclosing x)) /\
+  (eol s j = true \/ exists x, nth_error s j = Some x /\ Ipv4Token.enclosing x) /\
+  Ipv4Token.dotted_quad (RxLang.sub s i j).
+Proof. exact Ipv4Token.ipv4_match_is_a_standalone_dotted_quad. Qed.
+
+Theorem C06_ipv4_search_finds_only_standalone_dotted_quads :
+  forall (s : list chr) (n i a b : nat) (c : caps), (i + n <= length s)%nat ->
+  search_from s n IPV4_RX i = Some (a, b, c) ->
+  (a = 0%nat \/ ((1 <= a)%nat /\ exists x, nth_error s (a - 1) = Some x /\ Ipv4Token.enclosing x)) /\
+  (eol s b = true \/ exists x, nth_error s b = Some x /\ Ipv4Token.enclosing x) /\
+  Ipv4Token.dotted_quad (RxLang.sub s a b).
+Proof. exact Ipv4Token.ipv4_search_finds_only_standalone_dotted_quads. Qed.
+
+Theorem C06_dotted_quad_parts_are_numerals_up_to_255 :
+  forall t : list chr, Ipv4Token.octet_core t -> (Ipv4Token.dec_value t <= 255)%N /\ Forall Ipv4Token.dig t.
+Proof. exact Ipv4Token.octet_core_value. Qed.
+
 Print Assumptions C06_matches_are_nonempty_ordered_disjoint.
 Print Assumptions C06_every_matched_character_belongs_to_the_pattern_alphabet.
 Print Assumptions C06_engine_returns_the_first_match_in_priority_order.
 Print Assumptions C06_ipv4_spans_contain_only_digits_and_dots.
 Print Assumptions C06_generated_address_patterns_alphabets.
+Print Assumptions C06_generated_ipv4_pattern_matches_only_standalone_dotted_quads.
+Print Assumptions C06_ipv4_search_finds_only_standalone_dotted_quads.
+Print Assumptions C06_dotted_quad_parts_are_numerals_up_to_255.
